@@ -414,7 +414,10 @@ where
                     break 'transfer;
                 }
 
-                let cookie = serde_json::from_slice::<AuthCookie>(message)?;
+                let Ok(cookie) = serde_json::from_slice::<AuthCookie>(message) else {
+                    debug!("invalid auth cookie content received, skipping auth cookie");
+                    break 'transfer;
+                };
                 let expires_at = cookie.timestamp + self.auth_cookie_expiry;
                 let now = SystemTime::now()
                     .duration_since(UNIX_EPOCH)
